@@ -16,7 +16,7 @@ EXPLANATION = (
 )
 TRUSTED = _c02.TRUSTED
 ASSUMPTIONS = _c02.ASSUMPTIONS + ["binary exponent of the argument is concrete per obligation (grid below); mod: operand signs concrete per obligation"]
-BUDGET = {'quick': dict(ob_deadline_s=100, total_s=150), 'thorough': dict(ob_deadline_s=600, total_s=1500)}
+BUDGET = {'quick': dict(ob_deadline_s=100, total_s=240), 'thorough': dict(ob_deadline_s=600, total_s=1500)}
 BOUNDS = {'quick': 'mantissa 1..12 bits, exponents -14..4, precisions 0 (exact) and 1..8, all modes; mod operands <= 9 bits, offsets -14..8',
           'thorough': 'mantissa up to 64 bits, exponents -70..10, mod operands up to 16 bits'}
 
@@ -66,6 +66,18 @@ def obligations(tier, seed=0):
     add('mod', sbc=0, tbc=3, off=0, prec=4, rnd='n', ssign=0, tsign=1, entry='op', E=40)
     add('mod', sbc=5, tbc=4, off=2, prec=3, rnd='n', ssign=0, tsign=1, entry='op')
     add('mod', sbc=9, tbc=3, off=-14, prec=4, rnd='n', ssign=1, tsign=1, entry='op')
+    # seeded random shapes (deterministic for a given VERIF_SEED)
+    import random
+    rng = random.Random(2000 + int(seed or 0))
+    for _ in range(24 if tier != 'thorough' else 100):
+        rnd = rng.choice('nfcdu')
+        bc = rng.randint(1, 14)
+        e = rng.randint(-bc - 4, 4)
+        add('round_int', bc=bc, exp=e, fn=rng.choice(['mpf_floor', 'mpf_ceil', 'mpf_nint']), prec=rng.choice([0, 1, 2, 3, 5, 8]), rnd=rnd)
+        add('frac', bc=bc, exp=e, prec=rng.choice([1, 2, 3, 5, 8]), rnd=rnd)
+        add('to_int', bc=bc, exp=e, rnd=rng.choice([None, 'f', 'c', 'd', 'u', 'n']))
+        add('mod', sbc=rng.randint(1, 9), tbc=rng.randint(1, 9), off=rng.randint(-16, 10), prec=rng.choice([1, 2, 3, 4, 6]), rnd=rnd,
+            ssign=rng.randint(0, 1), tsign=rng.randint(0, 1))
     # fmod(x, y) == x % y on converted arguments
     for ss in (0, 1):
         for ts in (0, 1):
